@@ -4,21 +4,33 @@ use crate::reprs::*;
 use crate::util::*;
 use bytes::{Bytes, BytesMut};
 
+/// formatting must not panic either: a panic is reported in place of the output
+fn guarded<F: FnOnce() -> String>(f: F) -> Option<String> {
+    std::panic::catch_unwind(std::panic::AssertUnwindSafe(f)).ok()
+}
+
 fn emit(x: &[u8], k: usize) {
     let mut kb = Vec::new();
     let mut km = Vec::new();
-    if k % 3 != 2 {
+    let (ty, d, lo, up) = if k % 3 != 2 {
         let v = mk_bytes(x, k / 3, &mut kb);
-        println!("d Bytes {} {}", hex(x), hex(format!("{:?}", v).as_bytes()));
-        println!("x Bytes {} {} {}", hex(x), hex(format!("{:x}", v).as_bytes()), hex(format!("{:X}", v).as_bytes()));
+        ("Bytes", guarded(|| format!("{:?}", v)), guarded(|| format!("{:x}", v)), guarded(|| format!("{:X}", v)))
     } else {
         let v = mk_mut(x, k / 3, &mut km);
-        println!("d BytesMut {} {}", hex(x), hex(format!("{:?}", v).as_bytes()));
-        println!("x BytesMut {} {} {}", hex(x), hex(format!("{:x}", v).as_bytes()), hex(format!("{:X}", v).as_bytes()));
+        ("BytesMut", guarded(|| format!("{:?}", v)), guarded(|| format!("{:x}", v)), guarded(|| format!("{:X}", v)))
+    };
+    match d {
+        Some(d) => println!("d {} {} {}", ty, hex(x), hex(d.as_bytes())),
+        None => println!("d {} {} PANIC", ty, hex(x)),
+    }
+    match (lo, up) {
+        (Some(lo), Some(up)) => println!("x {} {} {} {}", ty, hex(x), hex(lo.as_bytes()), hex(up.as_bytes())),
+        _ => println!("x {} {} PANIC PANIC", ty, hex(x)),
     }
 }
 
 pub fn run(args: &[String]) -> i32 {
+    std::panic::set_hook(Box::new(|_| {}));
     let seed = seed_from_env();
     let thorough = tier_thorough();
     let mut rng = Rng::new(seed);
@@ -63,6 +75,23 @@ pub fn run(args: &[String]) -> i32 {
         if i % 10 == 0 {
             long.push(x);
         }
+    }
+    // lengths around the sizes an implementation might buffer at (powers of two ± a few): a run of printable bytes followed by
+    // each kind of escape, so that an escape straddles the would-be boundary at every alignment
+    for base in [32usize, 64, 128, 256, 512, 1024, 4096] {
+        for d in 0..9usize {
+            let l = base + d - 6;
+            for tail in [&[0x80u8][..], b"\n", b"\0", b"\"", b"\\", &[0xff, 0x00, 0x7f][..], b"z"] {
+                let mut x: Vec<u8> = (0..l).map(|i| b'a' + (i % 26) as u8).collect();
+                x.extend_from_slice(tail);
+                emit(&x, k);
+                k += 1;
+            }
+        }
+        // all-escape strings of such lengths (every byte becomes four characters)
+        let x: Vec<u8> = (0..base / 4 + 3).map(|i| 0x80 + (i % 100) as u8).collect();
+        emit(&x, k);
+        k += 1;
     }
     let mut cases: Vec<Vec<u8>> = vec![vec![]];
     cases.extend((0..=255u8).map(|a| vec![a]));
